@@ -17,6 +17,7 @@ pub fn run(ctx: &Ctx) -> Option<Report> {
         "C12" => super::p12::run(ctx),
         "C13" => super::p13::run(ctx),
         "C14" => super::p14::run(ctx),
+        "C15" => super::p15::run(ctx),
         "C16" => super::p16::run(ctx),
         "C17" => super::p17::run(ctx),
         "C18" => super::p18::run(ctx),
@@ -41,6 +42,7 @@ pub fn replay(ctx: &Ctx, case: &Value) -> Option<Report> {
         "C12" => super::p12::replay(ctx, case),
         "C13" => super::p13::replay(ctx, case),
         "C14" => super::p14::replay(ctx, case),
+        "C15" => super::p15::replay(ctx, case),
         "C16" => super::p16::replay(ctx, case),
         "C17" => super::p17::replay(ctx, case),
         "C18" => super::p18::replay(ctx, case),
